@@ -174,6 +174,7 @@ enum chunking { CH_MAX = 0, CH_ONE = 1, CH_RANDOM = 2, CH_HEADER_SPLIT = 3 };
 /* data-change events: param = number of records that flip, or one of these */
 #define SIM_WIPE_PREFIXES 100001
 #define SIM_WIPE_ALL 100002
+#define SIM_ADD_KEYS 100003 /* half of the universe's router keys appear */
 
 struct tevent { /* timed cache-side event */
 	time_t at;
@@ -441,6 +442,7 @@ void prec_from_record(const struct pfx_record *r, struct prec *p);
 void record_from_prec(const struct prec *p, struct pfx_record *r, const struct rtr_socket *src);
 
 void sim_init(struct sim *s, struct universe *u, const struct simcfg *cfg, uint64_t seed);
+extern void (*SIM_ON_ESTABLISHED)(struct sim *s); /* engine hook: the socket has just been reported ESTABLISHED */
 void sim_attach(struct sim *s, struct rtr_socket *sock, struct pfx_table *pfxt, struct spki_table *spkit);
 void sim_free(struct sim *s);
 void sim_snapshot(struct sim *s, const struct rtr_socket *src, struct snap *out);
